@@ -23,8 +23,21 @@ def unroll_cases(ctx):
         A = tgen.rtensor(rng, cfg, [li, lj.conj()], n=tgen.allowed_charge(rng, cfg, sym, [li, lj.conj()]))
         B = tgen.rtensor(rng, cfg, [lj, lk.conj(), ll], n=tgen.allowed_charge(rng, cfg, sym, [lj, lk.conj(), ll]))
         C = tgen.rtensor(rng, cfg, [lk, ll.conj()], n=tgen.allowed_charge(rng, cfg, sym, [lk, ll.conj()]))
-        net = rng.choice(['AB', 'ABC'])
-        if net == 'AB':
+        net = rng.choice(['AB', 'ABC', 'MB', 'AB-permuted'])
+        if net == 'MB':
+            # a META-FUSED output leg in front of the other (possibly unrolled) output legs
+            lm1, lm2 = tgen.rleg(rng, cfg, sym, maxD=2), tgen.rleg(rng, cfg, sym, maxD=2)
+            T0 = tgen.rtensor(rng, cfg, [lm1, lm2, lj.conj()], n=tgen.allowed_charge(rng, cfg, sym, [lm1, lm2, lj.conj()]))
+            T = T0.fuse_legs(axes=((0, 1), 2), mode='meta')
+            args = (T, ('m', 'j'), B, ('j', 'k', 'l'), ('m', 'k', 'l'))
+            ref = yastn.ncon([T, B], [[-1, 1], [1, -2, -3]])
+            labels = {'j': lj, 'k': lk.conj(), 'l': ll}
+        elif net == 'AB-permuted':
+            # output labels in another order than they appear (the partial results carry a pending transposition)
+            args = (A, ('i', 'j'), B, ('j', 'k', 'l'), ('l', 'i', 'k'))
+            ref = yastn.ncon([A, B], [[-2, 1], [1, -3, -1]])
+            labels = {'i': li, 'j': lj, 'k': lk.conj(), 'l': ll}
+        elif net == 'AB':
             args = (A, ('i', 'j'), B, ('j', 'k', 'l'), ('i', 'k', 'l'))
             ref = yastn.ncon([A, B], [[-1, 1], [1, -2, -3]])
             labels = {'i': li, 'j': lj, 'k': lk.conj(), 'l': ll}
@@ -48,11 +61,15 @@ def unroll_cases(ctx):
         specs.append({two[0]: 2, two[1]: 2})
         robs = tgen.obs(ref)
         for spec in specs:
+            spec_before = repr(spec)
             try:
                 res = yastn.contract_with_unroll(*args, unroll=spec, optimize=path)
             except yastn.YastnError as e:
                 ctx.count('unroll:rejected')
                 continue
+            if repr(spec) != spec_before:
+                ctx.violation('contract_with_unroll changed the unroll specification it was given: %s -> %s' % (spec_before, repr(spec)[:120]),
+                              dict(kind='unroll-mutates-spec', net=net, sym=sym, spec=spec_before, rep=rep), family='unroll-mutates-spec')
             ctx.count('unroll:run')
             ctx.case(dict(kind='unroll', net=net, sym=sym, spec=repr(spec)[:80], rep=rep), nontrivial=ref.size > 0)
             ok = tuple(res.n) == tuple(ref.n) and res.get_legs() == ref.get_legs() and np.array_equal(res.to_numpy(), ref.to_numpy())
